@@ -32,6 +32,9 @@ pub struct CProj {
     pub extra_generate: String,
     pub schema_globs: Vec<String>,
     pub doc_globs: Vec<String>,
+    /// operation files that are symbolic links: (path of the document as the patterns match it, path of the real file
+    /// relative to the project root). The document is the matched path; where its bytes live is the file system's business.
+    pub links: Vec<(String, String)>,
 }
 
 impl CProj {
@@ -46,6 +49,7 @@ impl CProj {
             extra_generate: String::new(),
             schema_globs: vec!["./schema/**/*.graphql".into()],
             doc_globs: vec!["./src/**/*.graphql".into()],
+            links: vec![],
         }
     }
     pub fn yaml(&self) -> String {
@@ -70,7 +74,17 @@ impl CProj {
     pub fn project(&self) -> Project {
         let mut p = Project::default();
         for (k, v) in self.schema.iter().chain(self.ops.iter()) {
-            p.files.insert(k.clone(), v.clone());
+            match self.links.iter().find(|l| l.0 == *k) {
+                None => {
+                    p.files.insert(k.clone(), v.clone());
+                }
+                Some((_, real)) => {
+                    // the real file, and a relative link to it at the matched path
+                    p.files.insert(real.clone(), v.clone());
+                    let ups = k.matches('/').count();
+                    p.files.insert(k.clone(), format!("{}{}{real}", cli::SYMLINK_MARK, "../".repeat(ups)));
+                }
+            }
         }
         p.files.insert("graphql.config.yaml".into(), self.yaml());
         p
